@@ -103,6 +103,9 @@ def _complete_introspection_with_errors():
     return json.dumps({"data": data, "errors": [{"message": "partial failure"}]}).encode()
 
 
+SECRET = "$2b$12$KIXsecret"  # the value of the referenced variable itself starts with "$": substituted once, not twice
+
+
 FAULTS = [
     # errors next to a COMPLETE introspection result: ignoring the errors would generate a client quietly
     ("errors_with_complete_data", _complete_introspection_with_errors()),
@@ -156,7 +159,7 @@ def gen_child(case, scratch, delivery):
                 cfg["remote_schema_url"] = "http://schema.test/graphql"
                 cfg["remote_schema_headers"] = case["headers"]
                 cfg["remote_schema_verify_ssl"] = case["verify"]
-                os.environ["VF_TOKEN"] = "secret-token"
+                os.environ["VF_TOKEN"] = SECRET
                 seen = {}
 
                 def fake_post(url, **kw):
@@ -299,7 +302,7 @@ def run_deliveries(case, scratch):
                     fail("input_" + kind, other, f"{other}: {cname}.{fname}: {got} vs single-file {default}")
         if other == "intro":
             req = json.load(open(os.path.join(scratch, "intro_request.json")))
-            want = {k: ("secret-token" if v == "$VF_TOKEN" else v) for k, v in case["headers"].items()}
+            want = {k: (SECRET if v == "$VF_TOKEN" else v) for k, v in case["headers"].items()}
             if req["headers"] != want or req["verify"] is not case["verify"] or req["url"] != "http://schema.test/graphql":
                 fail("introspection_request", "", f"sent headers={req['headers']} verify={req['verify']} url={req['url']}; configured {want} / {case['verify']}")
     seen, out = set(), []
@@ -335,7 +338,7 @@ def run_fault(case, scratch):
         return httpx.Response(200, content=payload, request=httpx.Request("POST", u))
 
     httpx.post = fake_post
-    os.environ["VF_TOKEN"] = "secret-token"
+    os.environ["VF_TOKEN"] = SECRET
     headers = {"Authorization": "$VF_TOKEN", "X-Plain": "v"} if case["env_header"] else {"X-Plain": "v"}
     section = {"remote_schema_url": url, "remote_schema_headers": headers, "remote_schema_verify_ssl": case["verify"]}
     with open(os.path.join(scratch, "queries.graphql"), "w") as fh:
@@ -364,7 +367,7 @@ def run_fault(case, scratch):
                          "msg": f"{label} ({case['strategy']}): {type(exc).__name__ if exc else 'no error'}: {str(exc)[:200]}"})
     if os.path.exists(target) or sorted(os.listdir(scratch)) != before:
         failures.append({"clause": "fault_side_effect", "sig": label, "msg": f"{label}: files written: {sorted(set(os.listdir(scratch)) - set(before))}"})
-    want = {k: ("secret-token" if v == "$VF_TOKEN" else v) for k, v in headers.items()}
+    want = {k: (SECRET if v == "$VF_TOKEN" else v) for k, v in headers.items()}
     if seen and (seen["headers"] != want or seen["verify"] is not case["verify"] or seen["url"] != url):
         failures.append({"clause": "introspection_request", "sig": "", "msg": f"{label}: sent headers={seen.get('headers')} verify={seen.get('verify')}"})
     nt = [f"fault:{label}:{case['strategy']}:{case['env_header']}"]
